@@ -279,8 +279,8 @@ def work(hists, tier, open_ids, chunk=None):
             continue
         part.count("states_evaluated")
         tabs = H.hist_tables(hist)
-        if tier == "quick":
-            # a name capture does not depend on the data: empty, every single row, and the whole alphabet
+        if True:
+            # (both tiers) a name capture does not depend on the data: empty, every single row, and the whole alphabet
             datas = inputs.data_maps(tabs, 1, 1, inputs.D_ROWS_Q, inputs.E_ROWS_Q)
             full = {t: (inputs.mk(["g", "x", "y"], inputs.D_TYPES, inputs.D_ROWS_Q) if t == "d" else inputs.mk(["g", "w", "y"], inputs.E_TYPES, inputs.E_ROWS_Q)) for t in tabs}
             datas = [dm for dm in datas if not ("e" in dm and len(dm["e"]["rows"]) == 0 and len(dm["d"]["rows"]) > 0)] + [full]
@@ -365,7 +365,7 @@ def run(tier):
         exhaustive=True,
         rule=f"every state at depth <= 1 over the core menu"
         + (" and <= 2 over a one-entry-per-operator slice" if tier != "quick" else "")
-        + f" x every single renaming of one of its columns to {len(COLUMN_NAMES)} listed names and {len(DERIVED)} suffix patterns per other column, and of one of its tables to {len(TABLE_NAMES)} names x {'the empty table, every single row and the whole 3-row alphabet' if tier == 'quick' else 'all multisets of <= 2 rows'}, on Pandas, Polars and SQLite",
+        + f" x every single renaming of one of its columns to {len(COLUMN_NAMES)} listed names and {len(DERIVED)} suffix patterns per other column, and of one of its tables to {len(TABLE_NAMES)} names x the empty table, every single row and the whole 3-row alphabet, on Pandas, Polars and SQLite",
     )
 
 
